@@ -64,7 +64,7 @@ type c07Access struct {
 	G      int    `json:"g"`
 	C      string `json:"c"`
 	RW     string `json:"rw"`
-	Locked bool   `json:"locked"`
+	LK     string `json:"lk"` // "x" exclusive, "s" shared, "n" not held
 }
 
 type c07World struct {
@@ -107,9 +107,9 @@ func (w *c07World) cell(kind string, obj interface{}, extra string) string {
 	return n
 }
 
-func (w *c07World) record(g int, c, rw string, locked bool) {
+func (w *c07World) record(g int, c, rw string, lk string) {
 	w.mu.Lock()
-	w.log = append(w.log, c07Access{G: g, C: c, RW: rw, Locked: locked})
+	w.log = append(w.log, c07Access{G: g, C: c, RW: rw, LK: lk})
 	w.mu.Unlock()
 }
 
@@ -144,34 +144,34 @@ func c07Hook(ev string, args ...interface{}) {
 	switch ev {
 	case "enum.values.check", "enum.names.check":
 		w.gate(r)
-		w.record(r, w.cell(ev[:len(ev)-len(".check")], args[0], ""), "rd", false)
+		w.record(r, w.cell(ev[:len(ev)-len(".check")], args[0], ""), "rd", "n")
 	case "enum.values.publish", "enum.names.publish":
 		w.gate(r)
-		w.record(r, w.cell(ev[:len(ev)-len(".publish")], args[0], ""), "wr", false)
+		w.record(r, w.cell(ev[:len(ev)-len(".publish")], args[0], ""), "wr", "n")
 	case "schema.possible.check":
 		w.gate(r)
-		w.record(r, w.cell("schema.possible", args[0], name(args[1])), "rd", false)
+		w.record(r, w.cell("schema.possible", args[0], name(args[1])), "rd", "n")
 	case "schema.possible.publish":
 		w.gate(r)
-		w.record(r, w.cell("schema.possible", args[0], name(args[1])), "wr", false)
+		w.record(r, w.cell("schema.possible", args[0], name(args[1])), "wr", "n")
 	case "plan.abstract.enter":
 		w.gate(r) // before Lock(): never blocks while holding the mutex
 	case "plan.abstract.locked":
 		p := args[0].(*graphql.Plan)
-		w.record(r, w.cell("plan.alt", args[1], name(args[2])), "rd", p.VerifAbstractLocked())
+		w.record(r, w.cell("plan.alt", args[1], name(args[2])), "rd", p.VerifAbstractLockMode())
 	case "plan.abstract.built":
 		p := args[0].(*graphql.Plan)
-		w.record(r, w.cell("plan.alt", args[1], name(args[2])), "wr", p.VerifAbstractLocked())
+		w.record(r, w.cell("plan.alt", args[1], name(args[2])), "wr", p.VerifAbstractLockMode())
 	case "cache.lookup":
 		c := args[0].(*graphql.PlanCache)
 		rw := "rd"
 		if len(args) > 3 && (args[3] == "hit" || args[3] == "stale") {
 			rw = "wr" // MoveToFront / removal mutate the LRU
 		}
-		w.record(r, w.cell("cache", c, ""), rw, c.VerifTryLocked())
+		w.record(r, w.cell("cache", c, ""), rw, c.VerifLockMode())
 	case "cache.store", "cache.reset", "cache.evict":
 		c := args[0].(*graphql.PlanCache)
-		w.record(r, w.cell("cache", c, ""), "wr", c.VerifTryLocked())
+		w.record(r, w.cell("cache", c, ""), "wr", c.VerifLockMode())
 	}
 }
 
@@ -235,6 +235,29 @@ func c07Run(sh *c07Shared, kind string, variant int) string {
 		o := projectResult(res, rc)
 		o.Panic = pan
 		return render(o)
+	case "R7": // warm hits on two different keys in turn: every hit moves its entry to the front of the LRU
+		var out string
+		func() {
+			defer func() {
+				if r := recover(); r != nil {
+					out = fmt.Sprintf("panic: %v", r)
+				}
+			}()
+			for i := 0; i < 4; i++ {
+				q := c07EnumQ
+				if (i+variant)%2 == 1 {
+					q = c07AbstractQ
+				}
+				pr := sh.cache.Get(&b.Schema, q, "")
+				if len(pr.Errors) > 0 {
+					out = "planerr " + pr.Errors[0].Message
+					return
+				}
+				res := graphql.ExecutePlan(pr.Plan, graphql.ExecuteParams{Schema: b.Schema, Root: rootObject, Args: pr.SynthArgs, Context: ctx})
+				out += render(projectResult(res, rc)) + ";"
+			}
+		}()
+		return out
 	case "R5": // cache reset racing with Gets
 		sh.cache.Reset()
 		return "reset"
@@ -416,7 +439,7 @@ func replayC07(raw []byte, st *Stats, absSchema *abs.Schema, baselines map[strin
 		w.active = false
 		for i, k := range v.Reqs {
 			want := baselines[fmt.Sprintf("%s/%d", k, (i+1)%2)]
-			if k == "R3" || k == "R6" || k == "R4" || k == "R1" || k == "R2" {
+			if k != "R5" {
 				if results[i+1] != want {
 					return fmt.Sprintf("request %d (%s) answered %s, alone it answers %s", i+1, k, results[i+1], want), nil, w.log
 				}
@@ -437,6 +460,21 @@ func replayC07(raw []byte, st *Stats, absSchema *abs.Schema, baselines map[strin
 		}
 	}
 	st.Add("executions", int64(len(v.Reqs)))
+	if why == "" {
+		// free run: the same mix with no gates and no recording, all requests released at once and repeated, on one
+		// cold world.  The schedule replay orders every step through the scheduler's channels (which also orders them
+		// for the race detector); here the goroutines really overlap.  A disagreement counts only if it shows again.
+		for try := 0; try < 3; try++ {
+			why = c07FreeRun(&v, absSchema, baselines)
+			if why == "" {
+				break
+			}
+		}
+		st.Add("free_runs", 1)
+		if why != "" {
+			why = "free run: " + why
+		}
+	}
 	if why != "" {
 		st.Mismatch(Mismatch{What: "C07 " + why, Detail: map[string]interface{}{"reqs": v.Reqs, "sched": v.Sched, "info": detail}, Vector: raw})
 		return
@@ -445,7 +483,7 @@ func replayC07(raw []byte, st *Stats, absSchema *abs.Schema, baselines map[strin
 	lines := []interface{}{map[string]interface{}{"t": "new", "reqs": v.Reqs, "sched": v.Sched}}
 	gs := map[int]bool{}
 	for _, a := range log {
-		lines = append(lines, map[string]interface{}{"t": "ev", "g": a.G, "c": a.C, "rw": a.RW, "locked": a.Locked})
+		lines = append(lines, map[string]interface{}{"t": "ev", "g": a.G, "c": a.C, "rw": a.RW, "lk": a.LK})
 		gs[a.G] = true
 	}
 	if tw != nil && len(lines) > 1 && tw.put(lines) {
@@ -458,6 +496,55 @@ func replayC07(raw []byte, st *Stats, absSchema *abs.Schema, baselines map[strin
 	if len(log) > 0 {
 		st.Sample(map[string]interface{}{"reqs": v.Reqs, "sched": v.Sched, "accesses": len(log), "first": log[:minInt(6, len(log))]})
 	}
+}
+
+func c07FreeRun(v *c07Vector, absSchema *abs.Schema, baselines map[string]string) string {
+	sh, err := c07Fresh(absSchema)
+	if err != nil {
+		return ""
+	}
+	n := len(v.Reqs)
+	const reps = 3
+	start := make(chan struct{})
+	type res struct {
+		r   int
+		out [reps]string
+	}
+	done := make(chan res, 2*n)
+	for i := 1; i <= 2*n; i++ { // every request of the mix twice
+		go func(i int) {
+			r := (i-1)%n + 1
+			var o res
+			o.r = r
+			<-start
+			for k := 0; k < reps; k++ {
+				o.out[k] = c07Run(sh, v.Reqs[r-1], r)
+			}
+			done <- o
+		}(i)
+	}
+	close(start)
+	reset := false
+	for _, k := range v.Reqs {
+		reset = reset || k == "R5"
+	}
+	bad := ""
+	for i := 0; i < 2*n; i++ {
+		select {
+		case o := <-done:
+			k := v.Reqs[o.r-1]
+			want := baselines[fmt.Sprintf("%s/%d", k, o.r%2)]
+			for _, got := range o.out {
+				if k != "R5" && got != want && bad == "" {
+					bad = fmt.Sprintf("request %d (%s) answered %s, alone it answers %s", o.r, k, got, want)
+				}
+			}
+		case <-time.After(30 * time.Second):
+			return "requests did not finish within 30 s (deadlock or livelock)\n" + goroutineDump()
+		}
+	}
+	_ = reset
+	return bad
 }
 
 func minInt(a, b int) int {
